@@ -76,6 +76,7 @@ func runC16(c *Ctx) {
 	c16MigrateUseList(c)
 	c16DeletePaired(c)
 	c16RebaseKeepsAll(c)
+	c16NameFromWholeRef(c)
 	c16DeprecationsComplete(c)
 	if q := c.P.Pkg("private/bufpkg/bufconfig"); q != nil {
 		c16SectionsKept(c, q)
